@@ -286,26 +286,33 @@ def _int_of(text):
         return None
 
 
-def m_tables(schemes, lines, ids):
+def m_tables(schemes, lines, ids, names_for=None):
     """oracle tables: for every scheme with typed columns and every line with as
-    many fields as the scheme has columns, (class, text) -> outcome from the
-    real class; int(text) for every field of every line; subclass pairs"""
+    many fields as there are names (the scheme's own, or the explicit
+    column_names given for that line), (class of the named column, text) ->
+    outcome from the real class; int(text) for every field of every line;
+    subclass pairs"""
     typed = {}
     ints = {}
-    for ln in lines:
+    for li, ln in enumerate(lines):
         fields = ln.rstrip("\r\n").split("\t")
         for f in fields:
             if f not in ints:
                 ints[f] = _int_of(f)
         for s in schemes:
-            names = s.column_names()
-            if len(names) != len(fields):
-                continue
-            for n, f in zip(names, fields):
-                cls = s.column_class(n)
-                k = ids.of(cls)
-                if k != 0 and (k, f) not in typed:
-                    typed[(k, f)] = _entry(cls, f)
+            namesets = [s.column_names()]
+            if names_for is not None and names_for[li] is not None:
+                namesets.append(names_for[li])
+            for names in namesets:
+                if len(names) != len(fields):
+                    continue
+                for n, f in zip(names, fields):
+                    cls = s.column_class(n)
+                    if cls is None:
+                        continue
+                    k = ids.of(cls)
+                    if k != 0 and (k, f) not in typed:
+                        typed[(k, f)] = _entry(cls, f)
     return [[[k, S(f), e] for (k, f), e in typed.items()],
             [[S(f), OPT(i)] for f, i in ints.items()],
             ids.subpairs()]
@@ -520,7 +527,7 @@ def wire_from_line(spec, mode):
     ensure_repo()
     ids = Ids()
     rs, sch = m_recspec(spec, ids)
-    tb = m_tables([sch] if sch is not None else [], [spec["line"]], ids)
+    tb = m_tables([sch] if sch is not None else [], [spec["line"]], ids, [spec["names"]])
     return [2, rs, m_mode(mode), tb]
 
 
@@ -549,7 +556,7 @@ def wire_validate(spec, vmode, reset, vscheme):
     ids = Ids()
     rs, sch = m_recspec(spec, ids)
     vs = make_scheme(vscheme)
-    tb = m_tables([s for s in (sch, vs) if s is not None], [spec["line"]], ids)
+    tb = m_tables([s for s in (sch, vs) if s is not None], [spec["line"]], ids, [spec["names"]])
     return [3, rs, m_mode(vmode), B(reset), ([] if vs is None else [m_scheme(vs, ids)]), tb]
 
 
@@ -582,7 +589,8 @@ def impl_writer(hlines, mode, specs):
                 res = ["exc", c_exn(e)]
             out["adds"].append({"log": cap.take(), "res": res})
         text = fd.getvalue()
-        out["out"] = text.split("\n")[:-1] if text.endswith("\n") else ["<no trailing newline>" + text]
+        out["out"] = ([] if text == "" else
+                      text.split("\n")[:-1] if text.endswith("\n") else ["<no trailing newline>" + text])
     return out
 
 
@@ -597,7 +605,7 @@ def wire_writer(hlines, mode, specs):
         rss.append(rs)
         if sch is not None:
             schemes.append(sch)
-    tb = m_tables(schemes, [s["line"] for s in specs], ids)
+    tb = m_tables(schemes, [s["line"] for s in specs], ids, [s["names"] for s in specs])
     return [4, m_mode(mode), [S(l) for l in hlines], reg, tb, rss]
 
 
@@ -607,7 +615,7 @@ def dec_writer(sx):
     lg, init, adds, outl = sx
     return {"log": d_log(lg), "init": ["ok", d_errs(init[1])],
             "adds": [{"log": d_log(a[0]), "res": d_res(a[1], d_errs)} for a in adds],
-            "out": d_strs(outl)}
+            "out": ("\n".join(d_strs(outl)).split("\n") if outl else [])}
 
 
 # ---- derived header (from_reader) and mutations
